@@ -118,9 +118,12 @@ def interesting_ticks(rng: random.Random, tm: TempoMap, horizon: int, k: int) ->
 
 
 # ------------------------------------------------------------------------------------------ text pools
+# text that went through a wrong decoding once and is now simply the song's text ("mojibake"): every character is encodable in
+# Windows-1252 and the bytes happen to be valid UTF-8 - text like any other, to be carried verbatim
+MOJIBAKE = ["Ã©tude", "100Â°", "â€”", "donâ€™t", "Ã¼ber", "MotÃ¶rhead", "Â«", "Ã±"]
 WORDS = ["solo", "soloend", "soloing", "section", "lyric", "phrase_start", "phrase_end", "idle", "play",
          "half_tempo", "x", "E", "N", "S", "2", "=", "a=b", "[tag]", "café", "テスト", "{", "}", "\"q\"",
-         "don't", "0", "007", "B", "TS"]
+         "don't", "0", "007", "B", "TS"] + MOJIBAKE
 # what real charts carry in names, lyrics and section titles: printf/format-looking text, rich-text tags (Clone Hero renders them),
 # typographic quotes, escaped quotes, "Artist - Title" separators, HTML entities, shell/template sigils
 MARKUP = ["%", "%s", "%d", "100%", "%%", "%(x)s", "{0}", "{}", "{x}", "$", "${x}", "$1", "&", "&amp;", "<", ">", "<b>", "</b>", "<i>",
@@ -134,10 +137,10 @@ INVISIBLE = ["\ufeff", "\u200b", "\u200d", "\u200e", "\u00ad", "\u2060"]
 # the names of the event kinds themselves, as words of ordinary text ("text on", "texture", "lyrics", "sectional")
 KIND_WORDS = ["text ", "text", "Text ", "texture", "lyrics", "sectional", "E ", " = E ", "event "]
 TEXT_ALPHABET = ["a", "b", "Z", "1", " ", " ", "\"", "=", "[", "]", "{", "}", "\\", "\t", "\u00a0", "\u3000", "\u00e9", "e\u0301", "\u212b",
-                 "\u00df", "\u4e16", "lyric", "section", "lyric ", "section ", "LYRIC ", "Section ", "-", "'", ",", ".", "E"] * 2 + MARKUP + INVISIBLE + KIND_WORDS
+                 "\u00df", "\u4e16", "lyric", "section", "lyric ", "section ", "LYRIC ", "Section ", "-", "'", ",", ".", "E"] * 2 + MARKUP + INVISIBLE + KIND_WORDS + MOJIBAKE
 VALUE_ALPHABET = ["a", "b", "Q", "7", " ", "\"", "=", ",", "\t", "\u00e9", "\u4e16", "'", "-", ".", "(", ")", "\u00a0",
                   "e\u0301", "\u2126", "\u212b", "\uf900", "\u304b\u3099", "\u1100\u1161", "\ufb01",  # incl. text that is not NFC/NFKC-normalised
-                  "/", "//", " // ", "#", ";", "\\", "%", "{", "}", "[", "]"] * 2 + MARKUP + INVISIBLE
+                  "/", "//", " // ", "#", ";", "\\", "%", "{", "}", "[", "]"] * 2 + MARKUP + INVISIBLE + MOJIBAKE
 
 
 def gen_word(rng: random.Random) -> str:
@@ -191,7 +194,7 @@ def gen_string_value(rng: random.Random, hostile: bool) -> str:
                            "rock", "cd", "Motörhead", "テスト", "Knights of Cydonia - Live at Wembley", "AC/DC - T.N.T.", "<color=#00FF00>Nick</color>",
                            "<b>power</b> metal", "\u201cHeroes\u201d", "Die \u201eToten Hosen\u201c", "12\u201d Singles", "100% (Remix)", "R&B", "a - b",
                            "Album <size=10>(Special Edition)</size>", "50%s off", "{0} - {1}", "C:\\songs\\x.ogg", "Pasted\ufeff Name", "soft\u00adhyphen",
-                           "Through the Fire {Live}", "Intro {} Outro", "Medley {1/3}"])
+                           "Through the Fire {Live}", "Intro {} Outro", "Medley {1/3}", "MotÃ¶rhead", "Donâ€™t Stop"])
     r = rng.random()
     if r < 0.2:
         f = rng.choice(list(PASCAL.values()))
@@ -399,7 +402,7 @@ def gen_track(rng: random.Random, profile: str, res: int, tm: TempoMap, horizon:
                 kept.append([s, ln])
                 end = s + ln
         phrases = kept
-    tevents = sorted([[rng.choice(note_ticks + [rng.randint(0, horizon)]), gen_word(rng) if hostile else rng.choice(["solo", "soloend"])]
+    tevents = sorted([[rng.choice(note_ticks + [rng.randint(0, horizon)]), gen_word(rng) if hostile else rng.choice(["solo", "soloend", "solo", "soloend", "Ã©tude", "100Â°"])]
                       for _ in range(rng.choice([0, 0, 1, 2, 4]))], key=lambda e: e[0])
     tevents = [e for e in tevents if " " not in e[1] and e[1] != "" and not any(c.isspace() for c in e[1])]
     truth = {"groups": groups, "phrases": phrases, "tevents": tevents}
